@@ -103,6 +103,27 @@ def run_child(variant, argv, tag, timeout, env_extra=None, race=False):
                 racelog=racelog, wall=time.time() - t0)
 
 
+def classify_crash(tail, rc):
+    """Who killed a child that left no result? Returns (who, reason) with who in zerolog | harness | timeout | unknown.
+    The crashing goroutine is the first one printed after the panic / fatal error line; its innermost frame outside
+    the Go runtime and the standard library decides."""
+    if rc == 124 or "SIGQUIT: quit" in tail:
+        return "timeout", "stage timeout (SIGQUIT)"
+    m = re.search(r"(fatal error: [^\n]*|panic: [^\n]*|ERROR: AddressSanitizer[^\n]*|unexpected signal[^\n]*|signal: [^\n]*)", tail)
+    if not m:
+        return "unknown", "child exited with status %s without a result" % rc
+    reason = m.group(1)
+    rest = tail[m.end():]
+    g = re.search(r"goroutine \d+ [^\n]*\[running[^\n]*\]:\n(.*?)(?:\n\n|\Z)", rest, re.S)
+    block = g.group(1) if g else rest[:4000]
+    for fl in re.findall(r"^\s+(/\S+?\.go):\d+", block, re.M):
+        if fl.startswith("/repo/"):
+            return "zerolog", reason
+        if fl.startswith("/verif/"):
+            return "harness", reason
+    return "unknown", reason
+
+
 def parse_race_logs(prefix):
     """Count and de-duplicate WARNING: DATA RACE blocks. Returns list of dicts(sig, zerolog, text)."""
     blocks = []
@@ -234,35 +255,34 @@ def run_check(pid, tier, seed):
                 results[i] = fu.result()
     harness_err = False
     for r, (st, _argv, _tag) in zip(results, jobs):
-        if r["res"] is None and st.get("crash_is_violation"):
-            # the child died (fatal error / OOM / stack overflow): the input it was working on is on disk
-            tail = ""
-            try:
-                tail = open(r["log"], errors="replace").read()[-4000:]
-            except OSError:
-                pass
+        if r["res"] is not None:
+            continue
+        # the child died without a result: who did it?
+        tail = ""
+        try:
+            tail = open(r["log"], errors="replace").read()[-20000:]
+        except OSError:
+            pass
+        who, reason = classify_crash(tail, r["rc"])
+        civ = st.get("crash_is_violation")
+        if (civ and who not in ("harness", "timeout")) or (not civ and who == "zerolog"):
+            # a fatal error / panic in zerolog code (or, for stages that feed hostile input, any death that is not
+            # the harness's own): the input the child was working on is on disk
             wit = st.get("crash_witness", "").format(shard=_argv[_argv.index("-shard") + 1])
             whex = ""
             try:
                 b = open(wit, "rb").read()
                 n = int.from_bytes(b[:4], "little")
                 whex = b[8:8 + n].hex()
-            except OSError:
+            except (OSError, ValueError):
                 pass
-            m = re.search(r"(fatal error: [^\n]*|panic: [^\n]*|signal: [^\n]*)", tail)
-            reason = m.group(1) if m else "child exited with status %s without a result" % r["rc"]
             r["res"] = dict(evaluations=0, samples=[], counters={}, violations=[dict(sig="crash:" + reason[:60],
-                            desc="%s (%s); witness input %s" % (st.get("crash_desc", "child process died"), reason, whex[:200] or "n/a"),
-                            replay=dict(check=pid, input_full_hex=whex, log_tail=tail[-1500:]))], n_violations=1, inconclusive=[])
+                            desc="%s (%s); witness input %s" % (st.get("crash_desc", "the child process running the workload died in zerolog code"), reason, whex[:200] or "n/a"),
+                            replay=dict(check=pid, input_full_hex=whex, log_tail=tail[-2500:]))], n_violations=1, inconclusive=[])
             continue
-        if r["res"] is None:
-            harness_err = True
-            log("ERROR property=%s child %s produced no result (rc=%s); see %s" % (pid, r["tag"], r["rc"], r["log"]))
-            try:
-                tail = open(r["log"], errors="replace").read()[-3000:]
-                log(tail)
-            except OSError:
-                pass
+        harness_err = True
+        log("ERROR property=%s child %s produced no result (rc=%s, %s: %s); see %s" % (pid, r["tag"], r["rc"], who, reason, r["log"]))
+        log(tail[-3000:])
     agg = merge(results)
     # race reports
     races = []
